@@ -10,7 +10,7 @@ CLAIMED = {
     "C01": (
         "Generated-input search: exhaustive over all small files (1..3 or 1..4 records, field widths from a small set) x every chunk size "
         "x plain/gzip x final newline x LF/CRLF x lazy/eager for ten formats, plus Hypothesis-sampled larger files with chunk sizes aimed at "
-        "divisors and record boundaries; oracle is equality of concatenated chunk rows with read() rows and with the generated records.",
+        "divisors and record boundaries; oracle is equality of concatenated chunk rows with read() rows and with the generated records. Sampled formats also include BED12, GFF and wig with comment lines between the records (some longer than any record, some holding the column separator), GFA, pairs, chrom.sizes and VCF with typed INFO keys; max_chunk_size and read_chunk-then-read histories are drawn too.",
         "Holds on the explored region only. Trusts Python's gzip module and the per-format serializers in pbt/formats.py.",
         "exhaustive small-domain enumeration + Hypothesis sampling, differential oracle (chunked vs whole read)"),
     "C02": (
@@ -25,7 +25,7 @@ CLAIMED = {
         "finite floats, FASTA lengths around multiples of 80) and a plan that splits the rows into successive writes, a stream, or append "
         "sessions on a plain or gzip file. The written body is compared with an independent canonical serializer, the file is read back "
         "eagerly and lazily and compared with the input rows, and the plan's content must equal the single write byte for byte. In a third of the "
-        "cases the pieces are slices (optionally thinned by a mask) of the lazily re-read file, written piecewise or as one np.concatenate.",
+        "cases the pieces are slices (optionally thinned by a mask) of the lazily re-read file, written piecewise or as one np.concatenate. Seventeen table types by now (genotype matrices, GFF, GFA included); pieces may also be the chunks handed out by one reader with a column re-assigned on every second chunk, and the re-read FASTQ table (lazy and eager) is written to a FASTA target.",
         "Holds on the explored region only. Trusts the canonical serializer in pbt/props/c03.py and Python's gzip.",
         "Hypothesis generation, round-trip + reference serializer + metamorphic (split writes == single write)"),
     "C04": (
@@ -47,27 +47,27 @@ CLAIMED = {
         "Exhaustive over all 256 byte values x 10 predefined alphabets x 2 input routes, plus Hypothesis strings / lists / base-encoded arrays "
         "with one foreign character inserted anywhere, StringEncoding label lists, and all 90 ordered alphabet pairs for re-targeting and "
         "change_encoding (contiguous arrays and row-reordered views), and histories of 2..6 calls in one process (re-targetings between alphabets "
-        "that share a prefix; encode, edit the returned array, encode again); oracle is a Python model of each alphabet and text equality.",
+        "that share a prefix; encode, edit the returned array, encode again); oracle is a Python model of each alphabet and text equality. Also: text already held in an encoded array presented to an encoding (alphabet or numeric offset encoding) once to three times, whole or one row (text unchanged, same codes every time), lists of rows in several encodings, and k-mer arrays over one or two alphabets read back as text.",
         "Holds on the explored region; the byte-level part is complete. Hash collisions of StringEncoding are out of reach of random search.",
         "exhaustive byte enumeration + Hypothesis generation, reference-model oracle and text-preservation (metamorphic) oracle"),
     "C07": (
         "Model-based generated histories: Hypothesis draws an initial list of strings and a program of NumPy-style operations (row and column "
         "indexing of every kind, reversal, comparisons, item assignment on copies, concatenate, copy, ravel, split / join / str_equal) over a pool "
         "of earlier results, including non-contiguous views; after every step the real object must decode to the list-of-strings model and keep "
-        "the operand's encoding.",
+        "the operand's encoding. Also: single elements picked by row and column lists or by the ragged mask itself, NumPy array functions on flat arrays, two-dimensional encoded arrays, results kept unread between steps, and alphabets made for the case after other alphabets over the same letters were made, used and dropped.",
         "Holds on the explored region only (4 encodings). The list model has no view aliasing, so assignment is only made on fresh copies and the original is re-checked.",
         "Hypothesis-generated operation programs interpreted against a list-of-strings reference model"),
     "C08": (
         "Exhaustive enumeration of every interval multiset (up to 3 intervals) on contigs of size 1..6 (1..8 thorough) with every merge distance, "
         "and every pair of multisets (2+2) on sizes up to 5 (6 thorough), plus Hypothesis sets on contigs up to 300; every function's result is "
-        "compared with a dense per-base Python model (jaccard / forbes also on a two-contig genome where a set may be absent from a contig) and every input is compared with its snapshot after each call.",
+        "compared with a dense per-base Python model (jaccard / forbes also on a two-contig genome where a set may be absent from a contig) and every input is compared with its snapshot after each call. Also: the same interval up to 600 times over (depth beyond 8 and 16 bit ranges), sorting of the table with its contig column encoded against a name list, and clipping of intervals lying wholly outside the contig.",
         "Holds on the explored region; the small-contig cores are complete. count_overlap / intersect are only checked for values on internally non-overlapping sets (their sweep has no meaning otherwise).",
         "exhaustive small-domain enumeration + Hypothesis sampling, reference-model oracle (dense per-base arrays)"),
     "C09": (
         "Generated genomes, tracks and expression trees: Hypothesis builds 1..4 chromosomes, bedGraph / interval tracks covering all "
         "constructor branches (start at 0 or later, end at size or earlier, gaps, empty chromosomes; int, float, bool) and an expression tree "
         "over + - * < > == & | ~ with scalars on either side, closed by to_dict, get_data, str, sum or histogram; the result is compared with "
-        "the same expression evaluated by NumPy on dense arrays.",
+        "the same expression evaluated by NumPy on dense arrays. Also: interval sets read from a BED file by the genome with other views of the set taken first, bedGraph through the Geometry object, genomes whose sizes are given unsorted with sort_names, rows on an ignored sequence, and the streamed array type closed by a reduction.",
         "Holds on the explored region only. In-memory (global) genomic arrays; the streamed per-chromosome variant is covered by C11.",
         "Hypothesis generation of data and expression trees, reference-model oracle (NumPy on dense arrays)"),
     "C10": (
@@ -82,7 +82,7 @@ CLAIMED = {
         "Exhaustive over all 2^(n-1) chunkings of n sorted entries (n = 8 quick, 10 thorough) for fourteen computations on ten deterministic "
         "datasets (mean, bincount, histogram with edges / with range, count_kmers, groupby on an identifier and on a text-typed key, chunk_entries, and per-chromosome pipelines evaluated "
         "with bnp.compute: pileup records, mask sum, pileup sum, pileup histogram, window column mean, and joint computes of several reductions), plus Hypothesis datasets of up to 200 "
-        "entries with sampled cut sets; each streamed value is compared with an independent Python computation and the in-memory path.",
+        "entries with sampled cut sets; each streamed value is compared with an independent Python computation and the in-memory path. Also: per-window sums (row-wise) and rows under in-memory windows that are not sorted within a chromosome, stranded windows ('.' included) and the evaluated form of stranded streamed intervals, chunk_lines, and k-mer counts over more than a million k-mers.",
         "Holds on the explored region; for the listed n every chunking is covered. Streams are built from in-memory tables split at the cut positions (file-level chunking is C01).",
         "exhaustive enumeration of chunkings + Hypothesis sampling, differential/metamorphic oracle (streamed == in-memory == Python model)"),
     "C12": (
@@ -90,14 +90,14 @@ CLAIMED = {
         "sequences for 3 contigs, 1957 for 4) x four chunkings (none, between groups, inside groups, every entry) x seven consumers "
         "(iter_chromosomes, pileup, mask sum, compute, get_track, MultiStream, forbes/jaccard), plus Hypothesis genomes where the ignored "
         "contig sits anywhere in the listing, a name with an underscore may be kept, and the contig column may be text-typed. A decision-table oracle says for each sequence whether evaluation must complete (with each "
-        "contig receiving exactly its entries) or must raise; the entries seen after a completed evaluation must equal the non-ignored input.",
+        "contig receiving exactly its entries) or must raise; the entries seen after a completed evaluation must equal the non-ignored input. Nine consumers by now (left_join and a joint evaluation of two streamed datasets in one compute call added), and group sequences in which a contig comes back after another one (the first and the last entry of the data then carry the same name).",
         "Holds on the explored region; the group-sequence core is complete for the stated genome sizes. Entries of one contig are contiguous (the property's precondition).",
         "exhaustive enumeration of group orders + Hypothesis sampling, decision-table oracle with conservation invariant"),
     "C13": (
         "Exhaustive over every list of up to 2 rows of length 0..4 (3 rows of length 0..3) on a two-letter sub-alphabet with every window 1..5 "
         "for k-mers (bit-packed and generic paths), minimizers (every k <= w), match_string, motif scores and k-mer counts; Hypothesis for five "
         "alphabets, k up to the largest representable, rows of length w-1, w, w+1 and empty rows, inputs given as non-contiguous row selections, "
-        "and histories of 2..4 calls over same-size alphabets. Oracle: per-row plain-Python definitions.",
+        "and histories of 2..4 calls over same-size alphabets. Oracle: per-row plain-Python definitions. Also: k one to three letters beyond what 64 bits hold (refused or right), plain-text input, alphabets of two and three letters, and inputs of 70 000 to 5 000 000 letters against per-row NumPy references.",
         "Holds on the explored region only; the small core is complete.",
         "exhaustive small-domain enumeration + Hypothesis sampling, reference-model oracle (per-row Python definitions)"),
     "C14": (
@@ -111,14 +111,14 @@ CLAIMED = {
         "Fault injection over generated inputs: one format violation of each class (bad marker, bad '+' line, non-numeric text incl. lone signs, "
         "malformed floats (two points, exponent without digits), a non-number in an all-'.' column, bad strand, fewer / more / double columns) is injected at every record position of a well-formed file; "
         "exhaustive over small files x every chunk size x lazy/eager x plain/gzip, sampled for larger files of nine formats. Oracle: an exception "
-        "is raised by the time all rows are read, a FormatException names the offending line, and that line number equals the one from a whole-file read.",
+        "is raised by the time all rows are read, a FormatException names the offending line, and that line number equals the one from a whole-file read. Thirteen formats by now: GFF and wig (comment lines inside), BED12 with malformed elements in its list-valued columns, VCF with malformed values of typed INFO keys, and empty integer fields are included.",
         "Holds on the explored region only. For column-count violations the admissible line numbers are p and p+1 (which of two disagreeing lines offends is not determined by the file) and the cross-configuration comparison is not applied to them.",
         "exhaustive enumeration + Hypothesis sampling of injected faults; oracle = must-raise + line-number invariant across configurations"),
     "C16": (
         "Generated BAM files from an independent specification-level encoder (struct + gzip, single- and multi-member): every decoded field of "
         "every record is compared with the generated value for lazy, eager and chunked reading (every admissible chunk size for small files), "
         "reference intervals from CIGAR and flag, and whole / filtered / reordered writing (decoded records and raw record bytes). The "
-        "repository's example BAM is decoded and compared with its SAM text as a cross-check of the encoder.",
+        "repository's example BAM is decoded and compared with its SAM text as a cross-check of the encoder. Also: records of 16383 to 65535 CIGAR operations, alignment_to_interval over the reader's stream of chunks, another BAM read first in the same process, and bnp.count_entries.",
         "Holds on the explored region only. The encoder is ours (pbt/bamenc.py); the example-file cross-check guards against a shared misreading of the specification.",
         "Hypothesis generation through an independent encoder, round-trip / reference oracle + differential (chunked vs whole)"),
     "C17": (
